@@ -18,6 +18,12 @@ def CompleteUpToPadding (f full : Bytes) : Prop :=
 def CrashSafe (ops : List Op) : Prop :=
   ∀ k, readerAccepts (image (ops.take k)) = false ∨ CompleteUpToPadding (image (ops.take k)) (image ops)
 
+/-- the C14 statement for the log of a run that *fails* before it commits (damaged input, write fault, failed
+allocation): there is no complete image to compare with, so no crash point — the state at exit before the cleanup
+`unlink` included — may be accepted by the readers -/
+def NeverAccepted (ops : List Op) : Prop :=
+  ∀ k, readerAccepts (image (ops.take k)) = false
+
 /-- executable form of the two alternatives for the file `f` left at one crash point, given the complete image
 `full` (used by the runner as a monitor on the *implementation's* log): `some true` = rejected,
 `some false` = complete up to padding, `none` = neither, i.e. the property is violated at this crash point -/
@@ -25,6 +31,15 @@ def statusOf (f full : Bytes) : Option Bool :=
   if readerAccepts f = false then some true
   else if f.length ≤ full.length ∧ full.take f.length = f ∧ isZeros (full.drop f.length) then some false
   else none
+
+/-- the monitor for one crash point of a *failing* run: `ref` is the complete image of the fault-free run on the
+same input when there is one (write faults), `none` when the input itself is damaged.  `some true` = rejected,
+`some false` = the complete image up to padding (only possible when the failure came after the commit, i.e. in the
+padding), `none` = accepted although it is not the complete image: the property is violated -/
+def failStatusOf (f : Bytes) (ref : Option Bytes) : Option Bool :=
+  match ref with
+  | none => if readerAccepts f = false then some true else none
+  | some full => statusOf f full
 
 def crashPointStatus (ops : List Op) (k : Nat) : Option Bool :=
   statusOf (image (ops.take k)) (image ops)
